@@ -27,6 +27,9 @@ def run(chk):
     from ..core.report import Check
     e6.run_S2(chk)
 
+    from . import e6 as _e6
+    chk.rule("WH", "ordering key per `which` (LM/SM/LR/SR): truncation keeps, and the backend lists first, the values the option names", floor=8)
+    _e6.run_WH(chk, "WH")
     from . import e10
     e10.run_U(chk, ("yastn.tensor.linalg", "yastn.tensor._merging"), floor1=5, floor2=1)
 
